@@ -87,7 +87,7 @@ def substG (ms : Bool) (h : FnHandler) : TMap → Term → Term
 /-- `FunctionInterpretation.interpret(env, actual_params)`; `envMs` = `env.substituter` is an
 `MSSubstituter`. `dict(zip(formal_params, actual_params))`. -/
 def interpret (envMs : Bool) (fi : FunInterp) (actuals : List Term) : Term :=
-  substG envMs noInterp (dictOf ((fi.formals.map Term.sym).zip actuals)) fi.body
+  substG envMs noInterp (pyDict ((fi.formals.map Term.sym).zip actuals)) fi.body
 
 def handlerOf (envMs : Bool) (ι : IMap) : FnHandler :=
   fun f as => (ι.get f).map (fun fi => interpret envMs fi as)
@@ -122,7 +122,7 @@ def isTerm : Term → Bool
 def interpretOk (envMs : Bool) (fi : FunInterp) (actuals : List Term) : Bool :=
   decide (actuals.length = fi.formals.length) && isTerm fi.body
     && fi.formals.all (fun s => s.params.isEmpty) && actuals.all isTerm
-    && substOkG envMs noInterp (fun _ _ => true) (dictOf ((fi.formals.map Term.sym).zip actuals)) fi.body
+    && substOkG envMs noInterp (fun _ _ => true) (pyDict ((fi.formals.map Term.sym).zip actuals)) fi.body
 
 def handlerOkOf (envMs : Bool) (ι : IMap) : Sym → List Term → Bool :=
   fun f as => match ι.get f with | some fi => interpretOk envMs fi as | none => true
